@@ -1,3 +1,4 @@
+import BlockCiphers.Proofs.GenTables
 import BlockCiphers.Proofs.DesSpec
 import BlockCiphers.Proofs.DesCompl
 import BlockCiphers.Proofs.DesSpecPerm
@@ -8,6 +9,18 @@ C05 — DES and Triple-DES conform to FIPS 46-3 / SP 800-67 and their key relati
 GENERATED statement file (tools/gen_thm.py): every theorem below restates, verbatim, a theorem of a Proofs/ module
 and is proved by applying it.  ONLY property theorems and non-vacuity examples live in Thm/.
 -/
+
+namespace BC.GenTables
+open BC.Gen
+theorem C05.des_SHIFTS_eq : des_SHIFTS.toList = BC.Des.SHIFTS :=
+  _root_.BC.GenTables.des_SHIFTS_eq
+end BC.GenTables
+
+namespace BC.GenTables
+open BC.Gen
+theorem C05.des_SBOXES_eq : des_SBOXES.toList = (BC.Des.SBOXES.toList.map nats8).flatten :=
+  _root_.BC.GenTables.des_SBOXES_eq
+end BC.GenTables
 
 namespace BC.Des
 open BC.Spec.Des (permute PC1 PC2 E P IP FP LR iteration schedule roundKeys cipher)
